@@ -574,6 +574,9 @@ func SimplifyPath64(path Path64, epsilon float64, isClosedPath bool) Path64 {
 		}
 
 		flags[curr] = true
+		if verifOn {
+			verifSimplifyRemoved(curr)
+		}
 		curr = next
 		next = getNext(next, high, flags)
 		if isClosedPath || (curr != high && curr != 0) {
@@ -657,6 +660,9 @@ func SimplifyPathD(path PathD, epsilon float64, isClosedPath bool) PathD {
 		}
 
 		flags[curr] = true
+		if verifOn {
+			verifSimplifyRemoved(curr)
+		}
 		curr = next
 		next = getNext(next, high, flags)
 
